@@ -113,6 +113,8 @@ namespace Givaro
             F.assign(const_cast<Element&>(zero), F.zero);
             F.assign(const_cast<Element&>(mOne), F.mOne);
             _p = F._p;
+            // the Montgomery constants depend on the modulus: copy them too
+            _p1 = F._p1; _r = F._r; _r2 = F._r2; _r3 = F._r3;
             return *this;
         }
 
